@@ -62,15 +62,38 @@ def r29(F):
     fn = F.fn(VM + "binding_push")
     add = [b for b, t in fn.calls() if callee(t) == STACK + "add"]
     need(len(add) == 1, "expected one Stack::add in binding_push")
-    contains = [(b, t) for b, t in fn.calls() if callee(t).endswith("BTreeSet::contains")]
-    need(contains, "reserved-word lookup not found")
-    cb, ct = contains[0]
-    labs = Origins(fn).at(ct["args"][0], cb)
-    r.inst("binding_push:reserved-source", fn.where(cb), ("field", "reserved_words") in labs,
-           "looked up in self.reserved_words" if ("field", "reserved_words") in labs else "reserved-word lookup does not use self.reserved_words")
-    sb, ft, tt = util.bool_switches(fn, ct["dest"]["l"])[0]
-    ok = add[0] not in cfg.reachable(fn, tt) and add[0] not in cfg.reachable(fn, 0, removed={cb})
-    r.inst("binding_push:reserved", fn.where(sb), ok, "a reserved word never reaches symbols.add" if ok else "symbols.add reachable for a reserved word / without the test")
+    def reserved_guard(f, target_block):
+        """(switch block, ok) of a reserved_words lookup in f whose `is reserved` edge cannot reach target_block and without which
+        target_block is unreachable; None when f has no such lookup"""
+        cs = [(b, t) for b, t in f.calls() if callee(t).endswith("BTreeSet::contains")]
+        o = Origins(f) if cs else None
+        for cb, ct in cs:
+            if ("field", "reserved_words") not in o.at(ct["args"][0], cb):
+                continue
+            sws = util.bool_switches(f, ct["dest"]["l"])
+            if not sws:
+                continue
+            sb, ft, tt = sws[0]
+            return sb, (target_block not in cfg.reachable(f, tt) and target_block not in cfg.reachable(f, 0, removed={cb}))
+        return None
+    g = reserved_guard(fn, add[0])
+    if g is not None:
+        r.inst("binding_push:reserved-source", fn.where(g[0]), True, "looked up in self.reserved_words")
+        r.inst("binding_push:reserved", fn.where(g[0]), g[1], "a reserved word never reaches symbols.add" if g[1] else
+               "symbols.add reachable for a reserved word / without the test")
+    else:
+        # the test was moved to the callers: then every caller of binding_push has to make it
+        from .. import callgraph
+        sites = callgraph.get(F).call_sites(VM + "binding_push")
+        need(sites, "binding_push has no reserved-word test and no callers")
+        for n, b in sorted(sites):
+            cf = F.fn(n)
+            gg = reserved_guard(cf, b)
+            ok = gg is not None and gg[1]
+            r.inst("binding_push:reserved@%s" % n.split("::")[-1], cf.where(b), ok,
+                   "the caller refuses reserved words before binding" if ok else
+                   "%s binds names through binding_push without the reserved-word test (which binding_push no longer makes): a keyword is "
+                   "accepted as a %s" % (n.split("::")[-1], "function parameter" if "fcall" in n else "binding name"))
     ib = [(b, t) for b, t in fn.calls() if callee(t) == STACK + "is_bound"]
     need(ib, "is_bound not called")
     b, t = ib[0]
